@@ -17,6 +17,9 @@ pub struct Phase {
     pub racers: u8,
     /// which racer's next server request runs, step by step
     pub schedule: Vec<u8>,
+    /// this replica additionally has pending changes above the batching threshold
+    #[serde(default)]
+    pub big: Option<u8>,
 }
 
 #[derive(Clone, Debug, PartialEq, Eq, Hash, Serialize, Deserialize)]
@@ -27,6 +30,10 @@ pub struct RaceCase {
 }
 
 fn phase_strategy(replicas: u8, tasks: u8) -> impl Strategy<Value = Phase> {
+    phase_strategy_ext(replicas, tasks, false)
+}
+
+fn phase_strategy_ext(replicas: u8, tasks: u8, big: bool) -> impl Strategy<Value = Phase> {
     let commit = (
         0..replicas,
         proptest::collection::vec(intent_strategy(tasks), 1..=3),
@@ -35,11 +42,14 @@ fn phase_strategy(replicas: u8, tasks: u8) -> impl Strategy<Value = Phase> {
         proptest::collection::vec(commit, 0..=4),
         1u8..(1 << replicas),
         proptest::collection::vec(any::<u8>(), 0..24),
+        if big { proptest::option::weighted(0.8, 0..replicas).boxed() } else { Just(None).boxed() },
     )
-        .prop_map(|(commits, racers, schedule)| Phase {
+        .prop_map(|(commits, racers, schedule, big)| Phase {
             commits,
-            racers,
+            // the replica with the large pending changes takes part in the race
+            racers: racers | big.map(|r| 1u8 << r).unwrap_or(0) | 1,
             schedule,
+            big,
         })
 }
 
@@ -48,7 +58,7 @@ pub fn race_strategy(max_replicas: u8, max_prior: usize, big_weight: u32) -> Box
         .prop_flat_map(move |replicas| {
             (
                 proptest::collection::vec(action_strategy(replicas, 2, big_weight), 0..=max_prior),
-                proptest::collection::vec(phase_strategy(replicas, 2), 1..=3),
+                proptest::collection::vec(phase_strategy_ext(replicas, 2, big_weight > 0), 1..=3),
             )
                 .prop_map(move |(prior, phases)| RaceCase {
                     replicas,
@@ -92,6 +102,15 @@ pub fn check_race(c: &RaceCase) -> CheckResult {
         for (r, intents) in &ph.commits {
             let r = *r as usize % n;
             w.commit(r, intents)?;
+        }
+        if let Some(r) = ph.big {
+            let r = r as usize % n;
+            let mut local = w.reps[r].tasks();
+            let mut ops = vec![];
+            w.realizers[r].realize_big(0, 3, 340, &[], &[], &[], &mut local, &mut ops);
+            w.reps[r]
+                .commit(ops)
+                .map_err(|e| Failure::new("commit-error", format!("big commit failed: {e}")))?;
         }
         let racers: Vec<usize> = (0..n).filter(|i| ph.racers & (1 << i) != 0).collect();
         if racers.len() >= 2 {
@@ -182,6 +201,53 @@ pub fn render(c: &RaceCase) -> serde_json::Value {
     })
 }
 
+/// All binary schedules of a given length for two racers, over a few fixed conflict setups
+/// (a third replica's version already on the server, so that a racer pulls, loses a conflict,
+/// and is then rejected).
+pub fn exhaustive_cases(len: usize) -> Vec<RaceCase> {
+    let set = |t: u8, p: u8, v: u8, ts: i8| Intent::Set { t, p, v, ts };
+    let setups: Vec<(Vec<Action>, Vec<(u8, Vec<Intent>)>)> = vec![
+        // A: [t0.p (older), t0.q]; B: t0.p (newer) already pushed; C races with A
+        (
+            vec![
+                Action::Commit { r: 1, intents: vec![set(0, 0, 4, 1)] },
+                Action::Sync { r: 1 },
+            ],
+            vec![(0, vec![set(0, 0, 4, -1), set(0, 1, 4, 0)]), (2, vec![set(1, 0, 4, 0)])],
+        ),
+        // both racers edit the same property with tied timestamps
+        (vec![], vec![(0, vec![set(0, 0, 4, 0)]), (2, vec![set(0, 0, 5, 0)])]),
+        // delete vs update, with an earlier version to pull
+        (
+            vec![
+                Action::Commit { r: 1, intents: vec![set(0, 0, 1, 0), set(1, 0, 1, 0)] },
+                Action::Sync { r: 1 },
+                Action::Sync { r: 0 },
+                Action::Sync { r: 2 },
+                Action::Commit { r: 1, intents: vec![set(1, 1, 4, 1)] },
+                Action::Sync { r: 1 },
+            ],
+            vec![(0, vec![Intent::Delete { t: 0 }]), (2, vec![set(0, 1, 4, 2), set(1, 1, 5, 0)])],
+        ),
+    ];
+    let mut out = vec![];
+    for (prior, commits) in setups {
+        for bits in 0..(1u32 << len) {
+            out.push(RaceCase {
+                replicas: 3,
+                prior: prior.clone(),
+                phases: vec![Phase {
+                    commits: commits.clone(),
+                    racers: 0b101,
+                    schedule: (0..len).map(|i| if bits & (1 << i) != 0 { 255 } else { 0 }).collect(),
+                    big: None,
+                }],
+            });
+        }
+    }
+    out
+}
+
 pub fn run(e: &Engine) {
     e.assume("the harness ModelServer is a correct server (atomic requests, linear chain); interleaving granularity = one server request");
     e.assume("replicas use the in-memory storage, so the only scheduling points are server requests");
@@ -192,6 +258,13 @@ non-trivial = at least one add_version was answered ExpectedParentVersion; disti
         rule,
         e.tier.pick(150_000, 3_000_000),
         || race_strategy(4, 6, 0),
+        render,
+        check_race,
+    );
+    e.enumerate(
+        "two-racers-exhaustive",
+        "ALL binary schedules (length 12; thorough 16) of two racing syncs in three fixed conflict setups (a racer that pulls a version, loses a conflict and is then rejected; tied timestamps; delete vs update); oracles as above",
+        exhaustive_cases(e.tier.pick(12, 16)),
         render,
         check_race,
     );
